@@ -127,6 +127,7 @@ static void case_big(const args_t *a, long c, rng_t *r)
 	g_prop = "C11";
 	char path[4096]; snprintf(path, sizeof path, "%s/c11-big-%ld.mtbl", a->workdir, c);
 	uint64_t V = 0xFFFFFF00ULL + (uint64_t)rndn(r, 200);       /* one value just below 4 GiB (vlen is a 32-bit varint) */
+	if (c % 3 == 1) { V = 0xFFFFFFFFULL - rndn(r, 6); STAT("c11.big.entry_with_suffix_plus_value_ge_2^32"); }   /* key suffix + value length does not fit 32 bits */
 	const int straddle = (c % 3 == 2);   /* entry area <= UINT32_MAX < whole block: 32-bit restart array in a block larger than 4 GiB */
 	const size_t prefix = (c % 2) ? 13 : 0;
 	/* logical content: entry 0 has the huge zero value; entries 1..8 small */
@@ -154,7 +155,8 @@ static void case_big(const args_t *a, long c, rng_t *r)
 		uint8_t t[16]; size_t h = rd_varint_put(t, shared[i]); h += rd_varint_put(t + h, strlen(keys[i]) - shared[i]); h += rd_varint_put(t + h, lv);
 		cur += h + (strlen(keys[i]) - shared[i]) + lv;
 	}
-	if (pass == 0 && straddle) { uint64_t rest = cur - V, delta = rndn(r, (uint32_t)(4 * nrs + 4)); V = (uint64_t)UINT32_MAX - delta - rest; } else break;
+	if (pass == 0 && straddle) { uint64_t rest = cur - V, delta = (c % 6 == 2) ? 0 : rndn(r, (uint32_t)(4 * nrs + 4));   /* delta 0: the entry area is exactly UINT32_MAX bytes */
+	if (delta == 0) STAT("c11.big.entry_area_exactly_UINT32_MAX"); V = (uint64_t)UINT32_MAX - delta - rest; } else break;
 	}
 	uint64_t entries_end = cur;                         /* > UINT32_MAX, or (straddle) within the last 4*nrs+4 bytes below it */
 	const unsigned rw = straddle ? 4 : 8;
